@@ -73,7 +73,7 @@ func checkReservation(c *report.Ctx) {
 			nref++
 			_, may := ord.Before(e.Ret)
 			taken := facts.Holds(e.Ret.Block(), func(ft an.Fact) bool { return an.CmpNil(ft, false, loadOf(srvT, "invokeCtx")) })
-			c.Check("R-NOEFFECT", sprintf("%s/refusal%d", name, i), "an extra caller is refused with ErrAlreadyReserved exactly when a reservation exists, and nothing has been stored", may == 0 && taken && an.IsNil(e.Vals[0]), an.InstrPos(e.Ret), 1, "stores possibly before: %v; on the reserved edge: %v", may != 0, taken)
+			c.Check("R-NOEFFECT", sprintf("%s/refusal%d", name, i), "an extra caller is refused with ErrAlreadyReserved exactly when a reservation exists, and nothing has been stored", may == 0 && taken && an.IsZero(e.Vals[0]), an.InstrPos(e.Ret), 1, "stores possibly before: %v; on the reserved edge: %v; nothing handed out: %v", may != 0, taken, an.IsZero(e.Vals[0]))
 		}
 	}
 	c.Check("R-COUNT", name+"/has-refusal", "the refusing exit exists", nref == 1, fpos(f), nref, "%d refusing exits", nref)
